@@ -623,6 +623,7 @@ func checkC16(run *mon.Run, rng *mon.Rand, thorough bool) {
 		"C16.L2.export_validates_and_imports", "C16.L2.export_import_export_identical", "C16.L2.import_updates_describe_bonded_set", "C16.L2.behaviour_identical_after_import"} {
 		run.Declare(c, 8)
 	}
+	run.Declare("C16.L1.large_collections_sampled", 1)
 	c := &c16{run: run, rng: rng}
 	// L1: sample states along world histories
 	hist := pick(thorough, 6, 80)
@@ -638,8 +639,54 @@ func checkC16(run *mon.Run, rng *mon.Rand, thorough bool) {
 			run.Sample(map[string]interface{}{"l1_history_tail": tail(w.log, 15)})
 		}
 	}
+	c.l1Large()
 	c.l2Histories(pick(thorough, 6, 80), pick(thorough, 120, 250))
 	run.Sample(map[string]interface{}{"l2_probe_script": "queries; deposit next/stale/ahead/refund/conflicting-base; withdrawals; transfer; remove/add known validators; add new; 2 block ends; update-params; set-bridge-info; queries; engine set; export"})
 }
 
 func containsStr(s, sub string) bool { return strings.Contains(s, sub) }
+
+// l1Large: collections larger than a query page (100 entries): one bridge with 130 token pairs, 130 batch-info
+// generations and well over a hundred outputs must survive the round trip like small ones.
+func (c *c16) l1Large() {
+	run := c.run
+	r := c.rng.Split()
+	w := newL1World(run, r, MonSet{}, WorldCfg{Bridges: 2, Steps: 40, Periods: []time.Duration{2 * time.Second, time.Hour}})
+	w.Run()
+	env := w.env
+	user := env.Users[1]
+	pairs, batches := 0, 0
+	for i := 0; i < 130; i++ {
+		// an empty deposit registers the token pair of its denom (and needs no balance)
+		if res := env.Deposit(user, 1, "l2recipient", fmt.Sprintf("ularge%03d", i), math.ZeroInt(), nil); res.Class == sim.OK {
+			pairs++
+		}
+		bi := ophosttypes.BatchInfo{Submitter: sim.NewAccount(fmt.Sprintf("submitter%03d", i)).String(), ChainType: ophosttypes.BatchInfo_CHAIN_TYPE_CELESTIA}
+		if i%2 == 0 {
+			bi.ChainType = ophosttypes.BatchInfo_CHAIN_TYPE_INITIA
+		}
+		if res := env.L1.Deliver(ophosttypes.NewMsgUpdateBatchInfo(env.Bridges[1].Proposer.String(), 1, bi)); res.Class == sim.OK {
+			batches++
+		}
+	}
+	count := func() (n int) {
+		for _, b := range w.br {
+			n += len(b.outputs)
+		}
+		return n
+	}
+	for i := 0; i < 3000 && count() < 240; i++ {
+		w.opPropose() // on bridge 1 or 2; some proposals are deliberately invalid
+	}
+	run.CountN("C16.L1.large.token_pairs", pairs)
+	run.CountN("C16.L1.large.batch_infos", batches)
+	nout := count()
+	run.CountN("C16.L1.large.outputs", nout)
+	if !(pairs > 100 && batches > 100 && nout > 200) {
+		return // not built (a refused setup step): the clause below stays vacuous and the run inconclusive
+	}
+	run.Hit("C16.L1.large_collections_sampled")
+	c.l1State(w, "large collections (130 token pairs, 130 batch infos, >200 outputs)")
+	w.Run()
+	c.l1State(w, "large collections, 40 steps later")
+}
